@@ -1677,6 +1677,7 @@ chkpnt(void)
 fin:
 	/* all checkpoints cleared hopefully */
 	ichkpnts = 0U;
+	NEDTRIE_INIT(&chkpntr);
 	for (size_t i = 0U; i < nagain; i++) {
 		add_chkpnt(again[i]);
 	}
